@@ -101,6 +101,51 @@ func ruleC04LatestRevalidated(c *Ctx) {
 			c.ok(construct, u.ipos(r), "returned key is the replacement loaded on the IsInvalid == true edge")
 			continue
 		}
+		// case 3: the replacement is produced by a helper called on the IsInvalid == true edge: every key the helper
+		// returns is the entry built from a loader call it makes itself
+		viaHelper := false
+		if ex, isEx := resolve(r.Results[0]).(*ssa.Extract); isEx && ex.Index == 0 {
+			if call, isCall := ex.Tuple.(*ssa.Call); isCall {
+				h := staticCallee(call)
+				onInvalid := guardedBy(call, true, func(v ssa.Value) bool { cv, ok := strip(v).(*ssa.Call); return ok && staticCallee(cv) == isInv })
+				if h != nil && h.Blocks != nil && h.Pkg != nil && h.Pkg.Pkg.Path() == pkgApp && onInvalid {
+					all, n := true, 0
+					for _, hr := range returnsOf(h) {
+						if len(hr.Results) == 0 || isNilValue(hr.Results[0]) {
+							continue
+						}
+						n++
+						hres := resolve(hr.Results[0])
+						if cv, ok := hres.(*ssa.Call); ok {
+							if g := staticCallee(cv); g != nil && g.Name() == "tracked" {
+								hres = resolve(cv.Call.Args[0])
+							}
+						}
+						okr := false
+						if fromNewEntry(hres) {
+							allInstrs(h, func(i ssa.Instruction) {
+								if cc := callOf(i); cc != nil && !cc.IsInvoke() && cc.StaticCallee() == nil && instrDominates(i, hr) {
+									if p, isP := cc.Value.(*ssa.Parameter); isP && strings.Contains(p.Type().String(), "func(") {
+										okr = true
+									}
+								}
+							})
+						}
+						if !okr {
+							all = false
+						}
+					}
+					viaHelper = all && n > 0
+					if viaHelper {
+						c.FuncsAnalysed[shortName(h)] = true
+					}
+				}
+			}
+		}
+		if viaHelper {
+			c.ok(construct, u.ipos(r), "returned key is the replacement a helper loads on the IsInvalid == true edge")
+			continue
+		}
 		c.bad(construct, u.ipos(r), "a key is returned for new writes without having passed the validity gate (c.IsInvalid false edge) and without being its freshly loaded replacement")
 	}
 	// IsInvalid consults the policy and both conditions
